@@ -38,6 +38,7 @@ def extra_obligations(tier):
     return [solve.custom_result('assemble_tools_cy:prange[race-lemma]', A.F, '_asm_core_vec_*_kernel', A.race_lemma),
             solve.custom_result('assemble_tools_cy:assemble_vector[ravel-lemma]', A.F, 'assemble_vector / next_lexicographic', A.ravel_successor_lemma),
             solve.custom_result('assemblers:kernel-frames', 'pyiga/assemblers.pyx', 'entry_impl / combine', A.kernel_frame_obligations),
+            solve.custom_result('assemble_tools_cy:zero-initialised-results', 'pyiga/genericasm.pxi', 'multi_entries / multi_blocks', A.zero_init_obligations),
             solve.custom_result('assemble_tools_cy:transpose-tables', A.F, 'generic_assemble_core_vec_*d', A.transpose_table_obligations),
             solve.custom_result('codegen:update-coherence', 'pyiga/codegen/cython.py', 'AsmGenerator.generate_update', _update_coherence),
             solve.custom_result('codegen:update_params-coherence', 'pyiga/codegen/cython.py', 'AsmGenerator.generate_update_params', _update_params_coherence)] + \
